@@ -2,7 +2,7 @@
    parts; pattern choice and slider geometry are exercised by the direct oracle only — partial). *)
 From Coq Require Import ZArith List Bool Floats Reals.
 From Flocq Require Import Core.
-From V Require Import Tables F64 F32 FExact FInt FDy Decode DecodeProofs ManiaCols ManiaColsProofs Prng PrngProofs TaikoSplit TaikoSplitProofs.
+From V Require Import Tables F64 F32 FExact FInt FDy Decode DecodeProofs ManiaCols ManiaColsProofs Prng PrngProofs NextMaxProofs TaikoSplit TaikoSplitProofs.
 Import ListNotations.
 Open Scope Z_scope.
 
@@ -117,3 +117,11 @@ Theorem C19_taiko_split_params : forall version sm tr dist spans sv bl,
   0 <= sp_duration p <= 4294967295 /\ fin (sp_tick p) /\ (0 < RV (sp_tick p) <= IZR 4294967295)%R.
 Proof. exact should_convert_facts. Qed.
 Print Assumptions C19_taiko_split_params.
+
+(* the .NET generator behind the Random mods: next_max(max) = (sample * max) as i32 lies in [0, max)
+   for every raw sample below i32::MAX and every max up to 2^20 - on the binary64 values (the constant
+   1/i32::MAX is not a power of two, so this is monotone rounding against dyadic anchors, not exactness) *)
+Theorem C19_next_max_in_range : forall r max : Z, 0 <= r < 2147483647 -> 1 <= max <= 2 ^ 20 ->
+  0 <= to_i32 ((of_Z r * INV_I32_MAX) * of_Z max)%float < max.
+Proof. exact next_max_range. Qed.
+Print Assumptions C19_next_max_in_range.
